@@ -151,6 +151,35 @@ class C13(Prop):
                 lines = lines + stepped_iteration(rnd, lines, 'c09')
             if i % 3 == 1:
                 lines = lines + ['check c13-lockstep f', 'q f getindex']
+            if i % 3 == 2:
+                # at the end (the model has no bulk deletion on filtrations: implementation and oracle only): the
+                # inherited bulk operations at some index -- they too remove whole stars across all indices
+                w_ = impl.ImplWorld()
+                for l in lines: w_.exec(l)
+                f_ = w_.vars.get('f')
+                if f_ is not None:
+                    alln = list(impl.SimplicialComplex.simplices(f_))
+                    pts_ = [x for x in alln if impl.SimplicialComplex.orderOf(f_, x) == 0]
+                    if alln and rnd.random() < 0.6:
+                        # preferably at an index where the simplex is visible while some coface of it is born later
+                        S_ = impl.SimplicialComplex
+                        cand = [(S_.cofaces(f_, x), x) for x in alln if S_.orderOf(f_, x) < S_.maxOrder(f_)]
+                        cand = [(f_.addedAtIndex(x), max([f_.addedAtIndex(c_) for c_ in cs_]), x) for cs_, x in cand if cs_]
+                        cand = [(b_, x) for b_, hi_, x in cand if b_ < hi_]
+                        if cand and rnd.random() < 0.8:
+                            b_, x_ = rnd.choice(cand)
+                            lines = lines + ['! setindex f %s' % idx_tok(b_), 'check c13-begin-index f']
+                            ss = [x_] + rnd.sample(alln, min(len(alln), rnd.randint(0, 1)))
+                        else:
+                            lines = lines + ['! setindex f %s' % idx_tok(rnd.choice(INDEX_SET) / 4), 'check c13-begin-index f']
+                            ss = rnd.sample(alln, min(len(alln), rnd.randint(1, 2)))
+                        ss = list(dict.fromkeys(ss))
+                        cmd = 'dels f %s' % list_s(ss)
+                    else:
+                        # restriction, where everything is visible (what it means below the maximum index is not stated)
+                        lines = lines + ['! max f', 'check c13-begin-index f']
+                        cmd = 'restrict f %s' % list_s(rnd.sample(pts_, rnd.randint(0, len(pts_))) if pts_ else [])
+                    lines = lines + ['check c13-pre f ' + cmd, '! ' + cmd, 'check c13-post f']
             scripts.append(lines); merge_stats(stats, st)
             if big:
                 scripts.append(['exotic %s %s' % (rnd.choice(['-', 'obj', 'bytes']), rnd.choice(['tuple', 'fraction']))] + lines)
